@@ -280,8 +280,8 @@ package fastaio
 //@   ensures [len] len(result.Seq) == len(EFR.Seq)
 //@ func FastaRecord.Degap
 //@   loop 1:
-//@     invariant len(t) == count(k, 0, range_i, FR.Seq[k] != '-')
-//@     invariant forall(j, 0, range_i, implies(FR.Seq[j] != '-', t[count(k, 0, j, FR.Seq[k] != '-')] == FR.Seq[j]))
+//@     invariant len(t) == count(k, 0, range_i, int(FR.Seq[k]) != 45)
+//@     invariant forall(j, 0, range_i, implies(int(FR.Seq[j]) != 45, t[count(k, 0, j, int(FR.Seq[k]) != 45)] == FR.Seq[j]))
 //@   ensures [fields] result.ID == FR.ID && result.Description == FR.Description && result.Idx == FR.Idx
-//@   ensures [len] len(result.Seq) == count(k, 0, len(FR.Seq), FR.Seq[k] != '-')
-//@   ensures [content] forall(j, 0, len(FR.Seq), implies(FR.Seq[j] != '-', result.Seq[count(k, 0, j, FR.Seq[k] != '-')] == FR.Seq[j]))
+//@   ensures [len] len(result.Seq) == count(k, 0, len(FR.Seq), int(FR.Seq[k]) != 45)
+//@   ensures [content] forall(j, 0, len(FR.Seq), implies(int(FR.Seq[j]) != 45, result.Seq[count(k, 0, j, int(FR.Seq[k]) != 45)] == FR.Seq[j]))
